@@ -479,6 +479,18 @@ class Cells(Interface, Mapping, Callable, ItemFactory):
         else:
             self._impl.spmgr.set_cache(self._impl, enable_cache)
 
+    @Interface.allow_none.setter
+    def allow_none(self, value):
+        value = value if value is None else bool(value)
+        impl = self._impl
+        # Derived cells in the sub spaces carry the property of their base
+        for space in impl.spmgr._get_subs(impl.parent, skip_self=False):
+            c = space.cells[impl.name]
+            if c is impl or (
+                    c.is_derived() and impl.spmgr.get_deriv_bases(
+                        c, defined_only=True)[0] is impl):
+                c.allow_none = value
+
     @property
     def value(self):
         """Get, set, delete the scalar value.
